@@ -1,6 +1,6 @@
 #!/bin/sh
 # tools/try_patch.sh <patch.diff> <property id> [tier]   -- apply a seeded change to /repo, run one check, undo it.
-P="$1"; ID="$2"; TIER="${3:-quick}"
+P="$(readlink -f "$1")"; ID="$2"; TIER="${3:-quick}"
 cd /repo || exit 9
 if ! git diff --quiet; then echo "/repo has uncommitted changes"; exit 9; fi
 git apply "$P" || { echo "patch does not apply"; exit 9; }
